@@ -62,7 +62,8 @@ def dump (j : Jar) : String :=
       showKey e.key ++ "|" ++ showStr e.c.value ++ "|" ++ showStr e.c.domain ++ "|" ++ showStr e.c.path ++ "|" ++ showBool e.c.secure))
   ++ ";ho=" ++ ",".intercalate (j.hostOnly.map (fun dn => showStr dn.1 ++ "|" ++ showStr dn.2))
   ++ ";exp=" ++ ",".intercalate (j.expirations.map (fun kv => showKey kv.1 ++ "|" ++ showInt kv.2))
-  ++ ";heap=" ++ ",".intercalate (j.heap.map (fun e => showInt e.1 ++ "|" ++ showKey e.2)) ++ "}"
+  ++ ";heap=" ++ ",".intercalate (j.heap.map (fun e => showInt e.1 ++ "|" ++ showKey e.2))
+  ++ ";keys=" ++ "/".intercalate (j.keys.map (fun dp => showStr dp.1 ++ "|" ++ showStr dp.2)) ++ "}"
 
 def runOps (allowIp : Bool) : World → List (Op ⊕ Unit) → List String → List String
   | _, [], acc => acc.reverse
